@@ -19,6 +19,7 @@ import (
 
 	"github.com/avfs/avfs"
 	"github.com/avfs/avfs/vfs/memfs"
+	"github.com/avfs/avfs/vfs/orefafs"
 	"github.com/avfs/avfs/vfs/osfs"
 
 	"verifharness/lib"
@@ -163,8 +164,9 @@ func normMtime(s string, known map[int64]bool) string {
 // ---------- the implementation interpreter ----------
 
 type fsImpl struct {
-	win     bool   // Windows-typed file system: virtual unix paths are mapped with FromUnixPath / back with ToSlash
-	osMode  bool   // kernel oracle: OsFS on a tmpfs directory, paths re-rooted at `root`, virtual cwd
+	winVol string // Windows emulation: volume the virtual paths are mapped to ("" = the default volume)
+	win     bool // Windows-typed file system: virtual unix paths are mapped with FromUnixPath / back with ToSlash
+	osMode  bool // kernel oracle: OsFS on a tmpfs directory, paths re-rooted at `root`, virtual cwd
 	root    string
 	vcwd    string
 	views   map[int]avfs.VFS
@@ -176,13 +178,38 @@ type fsImpl struct {
 	fsgid   int
 	leak    string // base-path prefix that must never show up in errors or results (BasePathFS)
 	leaked  string
-	dead    bool // a call hung or panicked while holding locks: the instance is unusable
+	dead    bool          // a call hung or panicked while holding locks: the instance is unusable
+	dom     string        // protocol domain of the lines ("" = "fs"; "ofs" for OrefaFS)
+	orefa   bool          // OrefaFS: the root is not addressable, the tree is looked at through the verif hook
+	watch   time.Duration // watchdog of one call (0 = 1500ms)
+}
+
+// prefix is the first word of the protocol lines this interpreter executes (and its generator emits).
+func (m *fsImpl) prefix() string {
+	if m.dom == "" {
+		return "fs"
+	}
+	return m.dom
 }
 
 func newFsImpl() *fsImpl {
 	_ = avfs.SetUMask(0o022)
 	vfs := memfs.New()
 	return &fsImpl{views: map[int]avfs.VFS{0: vfs}, handles: map[int]avfs.File{}, nextV: 1, mtimes: map[int64]bool{}}
+}
+
+// newFsImplOrefa: the interpreter over orefafs.New() (domain `ofs`).
+func newFsImplOrefa() *fsImpl {
+	_ = avfs.SetUMask(0o022)
+	return &fsImpl{views: map[int]avfs.VFS{0: orefafs.New()}, handles: map[int]avfs.File{}, nextV: 1, mtimes: map[int64]bool{},
+		dom: "ofs", orefa: true, watch: 400 * time.Millisecond}
+}
+
+// newFsImplOrefaRoot: OrefaFS acting as uid 0 / gid 0 from its creation on (comparison with the kernel oracle, which runs as root).
+func newFsImplOrefaRoot() *fsImpl {
+	m := newFsImplOrefa()
+	m.views[0] = orefafs.NewWithOptions(&orefafs.Options{User: &verifUser{name: "root", uid: 0, gid: 0}})
+	return m
 }
 
 // fsOracle is the kernel oracle: a child process of this binary, chroot-ed into a fresh tmpfs directory that
@@ -287,7 +314,11 @@ func (m *fsImpl) in(p string) string {
 		if p == "" {
 			return p
 		}
-		return avfs.FromUnixPath(m.views[0], p)
+		s := avfs.FromUnixPath(m.views[0], p)
+		if m.winVol != "" && len(s) >= 2 && s[1] == ':' {
+			s = m.winVol + s[2:] // work on another volume than the default one
+		}
+		return s
 	}
 	if !m.osMode || p == "" || m.root == "" {
 		return p
@@ -405,10 +436,17 @@ func (m *fsImpl) call(line string) string {
 			m.dead = true
 		}
 		return normMtime(s, m.mtimes)
-	case <-time.After(1500 * time.Millisecond):
+	case <-time.After(m.watchdog()):
 		m.dead = true
 		return "hang"
 	}
+}
+
+func (m *fsImpl) watchdog() time.Duration {
+	if m.watch == 0 {
+		return 1500 * time.Millisecond
+	}
+	return m.watch
 }
 
 func atoiS(s string) int { n, _ := strconv.Atoi(s); return n }
@@ -419,7 +457,7 @@ func (m *fsImpl) exec(line string) string {
 		leakSink = m
 	}
 	f := strings.Fields(line)
-	if len(f) < 2 || f[0] != "fs" {
+	if len(f) < 2 || f[0] != m.prefix() {
 		return "bad-op"
 	}
 	if f[1] == "new" {
@@ -438,7 +476,17 @@ func (m *fsImpl) exec(line string) string {
 		if m.osMode {
 			return "dump -"
 		}
+		if d, ok := vfs.(*orefafs.OrefaFS); ok {
+			return d.VerifDump()
+		}
 		return vfs.(*memfs.MemFS).VerifDump()
+	case "snapo":
+		// the snapshot without the line of the root itself (OrefaFS cannot address its root)
+		if m.osMode {
+			rawSetFsIds(0, 0)
+			defer rawSetFsIds(m.fsuid, m.fsgid)
+		}
+		return m.snapBelowRoot(vfs)
 	case "snap":
 		// the tree is always looked at as the administrator, whoever is acting
 		if m.osMode {
@@ -458,6 +506,10 @@ func (m *fsImpl) exec(line string) string {
 	case "mkdirall":
 		return okOrErr(vfs.MkdirAll(p(0), toFileMode(uint32(atoiS(a[1])))))
 	case "openfile":
+		if atoiS(a[1]) == 0 { // a plain read-only open goes through Open, the entry point most callers use
+			fl, err := vfs.Open(p(0))
+			return m.reg(fl, err)
+		}
 		fl, err := vfs.OpenFile(p(0), atoiS(a[1]), toFileMode(uint32(atoiS(a[2]))))
 		return m.reg(fl, err)
 	case "create":
@@ -466,6 +518,12 @@ func (m *fsImpl) exec(line string) string {
 	case "remove":
 		return okOrErr(vfs.Remove(p(0)))
 	case "removeall":
+		if ov, ok := vfs.(*orefafs.OrefaFS); ok && orefaCycleBelow(ov, p(0)) {
+			// OrefaFS.removeAll recurses for ever on a cyclic children graph, allocating longer and longer paths; the
+			// goroutine could not be stopped: the call is NOT executed and reported as what it is
+			m.dead = true
+			return "hang"
+		}
 		return okOrErr(vfs.RemoveAll(p(0)))
 	case "rename":
 		return okOrErr(vfs.Rename(p(0), p(1)))
@@ -753,6 +811,8 @@ func (m *fsImpl) fileOp(vfs avfs.VFS, h avfs.File, a []string) string {
 		return okOrErr(h.Chdir())
 	case "close":
 		return okOrErr(h.Close())
+	case "name":
+		return "ok b " + lib.Hex(h.Name())
 	case "readdir":
 		des, err := h.ReadDir(atoiS(a[1]))
 		if err != nil {
@@ -788,6 +848,9 @@ func (m *fsImpl) existingPathsIn(vid int) (dirs, files, links []string) {
 	if !ok {
 		return
 	}
+	if m.orefa {
+		return m.orefaPaths(vfs.(*orefafs.OrefaFS))
+	}
 	var walk func(p string, depth int)
 	walk = func(p string, depth int) {
 		if depth > 6 {
@@ -820,7 +883,11 @@ func (m *fsImpl) existingPathsIn(vid int) (dirs, files, links []string) {
 // snap: API-level canonical snapshot of the whole tree (Lstat / ReadDir / ReadFile / Readlink, no link following):
 // path kind perm uid gid [nlink size content | target]; what C01 says must be indistinguishable.
 func (m *fsImpl) snap(vfs avfs.VFS) string {
-	var out []string
+	return "snap " + strings.Join(m.snapWalk(vfs, nil, "/", 0), " ")
+}
+
+// snapWalk appends the snapshot lines of vp and of everything below it.
+func (m *fsImpl) snapWalk(vfs avfs.VFS, out []string, vp string, depth int) []string {
 	var walk func(vp string, depth int)
 	walk = func(vp string, depth int) {
 		rp := m.in(vp)
@@ -859,6 +926,116 @@ func (m *fsImpl) snap(vfs avfs.VFS) string {
 			out = append(out, fmt.Sprintf("%s:f:%d:%d:%s", base, st.Nlink(), fi.Size(), lib.Hex(string(b))))
 		}
 	}
-	walk("/", 0)
+	walk(vp, depth)
+	return out
+}
+
+// orefaIndex parses the verif dump of an OrefaFS: the kind of every numbered node, the names in the children map
+// of the root node, and the index map (path -> node number).
+func orefaIndex(vfs *orefafs.OrefaFS) (kinds map[string]string, rootNames []string, index map[string]string) {
+	kinds, index = map[string]string{}, map[string]string{}
+	for _, t := range strings.Fields(vfs.VerifDump())[1:] {
+		if strings.HasPrefix(t, "index:") {
+			for _, e := range strings.Split(t[len("index:"):], ",") {
+				if kv := strings.SplitN(e, "=", 2); len(kv) == 2 {
+					index[lib.UnHex(kv[0])] = kv[1]
+				}
+			}
+			continue
+		}
+		c := strings.SplitN(t, ":", 3)
+		if len(c) < 3 {
+			continue
+		}
+		kinds[c[0]] = c[1]
+		if i := strings.Index(t, "["); c[0] == "0" && i >= 0 && t[i:] != "[nil]" && t[i:] != "[]" {
+			for _, e := range strings.Split(t[i+1:len(t)-1], ",") {
+				rootNames = append(rootNames, lib.UnHex(strings.SplitN(e, ">", 2)[0]))
+			}
+		}
+	}
+	return
+}
+
+// orefaPaths: the paths the API of an OrefaFS resolves (the keys of its index), by kind of node.
+func (m *fsImpl) orefaPaths(vfs *orefafs.OrefaFS) (dirs, files, links []string) {
+	kinds, _, index := orefaIndex(vfs)
+	for p, k := range index {
+		switch {
+		case p == "" || p == "/":
+		case kinds[k] == "d":
+			dirs = append(dirs, p)
+		default:
+			files = append(files, p)
+		}
+	}
+	sort.Strings(dirs)
+	sort.Strings(files)
+	return
+}
+
+// snapBelowRoot: the API-level snapshot of snap for every entry of the root directory (the names come from ReadDir("/"),
+// from the verif hook on OrefaFS), without the line of the root.
+func (m *fsImpl) snapBelowRoot(vfs avfs.VFS) string {
+	var names []string
+	if ov, ok := vfs.(*orefafs.OrefaFS); ok {
+		_, names, _ = orefaIndex(ov)
+	} else {
+		des, err := vfs.ReadDir(m.in("/"))
+		if err != nil {
+			return "snap ?readdir:" + errName(err)
+		}
+		for _, de := range des {
+			names = append(names, de.Name())
+		}
+	}
+	sort.Strings(names)
+	var out []string
+	for _, n := range names {
+		out = m.snapWalk(vfs, out, "/"+n, 1)
+	}
 	return "snap " + strings.Join(out, " ")
+}
+
+// orefaCycleBelow: the directory the index of an OrefaFS has for a path reaches itself through children maps of
+// directories (the graph OrefaFS.removeAll walks).
+func orefaCycleBelow(vfs *orefafs.OrefaFS, path string) bool {
+	abs, _ := vfs.Abs(path)
+	kinds, _, index := orefaIndex(vfs)
+	kids := map[string][]string{}
+	for _, t := range strings.Fields(vfs.VerifDump())[1:] {
+		i := strings.Index(t, "[")
+		if strings.HasPrefix(t, "index:") || i < 0 || t[i:] == "[nil]" || t[i:] == "[]" {
+			continue
+		}
+		k := t[:strings.Index(t, ":")]
+		for _, e := range strings.Split(t[i+1:len(t)-1], ",") {
+			kids[k] = append(kids[k], strings.SplitN(e, ">", 2)[1])
+		}
+	}
+	onPath := map[string]bool{}
+	done := map[string]bool{}
+	var cyc func(k string) bool
+	cyc = func(k string) bool {
+		if onPath[k] {
+			return true
+		}
+		if done[k] || kinds[k] != "d" {
+			return false
+		}
+		onPath[k] = true
+		for _, c := range kids[k] {
+			if cyc(c) {
+				return true
+			}
+		}
+		onPath[k] = false
+		done[k] = true
+		return false
+	}
+	k, ok := index[abs]
+	if _, pok := index[abs[:max(strings.LastIndex(abs, "/"), 0)]]; !pok || path == "" || !strings.HasPrefix(abs, "/") {
+		return false // RemoveAll returns (or panics in SplitAbs) before it walks
+	}
+	return ok && cyc(k)
 }
